@@ -249,6 +249,7 @@ func init() {
 		rows := maprangeAmbients(c)
 		rows = append(rows, maprangeSortRows(maprangeProcState(c))...)
 		rows = append(rows, maprangeSortRows(maprangeLocalTime(c))...)
+		rows = append(rows, maprangeSortRows(maprangeDefaultAlias(c))...)
 		var b strings.Builder
 		b.WriteString("(* GENERATED by tools/goextract (emit_maprange.go) from the repository source - do not edit.\n")
 		b.WriteString("   Goroutines, select, wall clock, randomness, process environment in x/, types/, app/\n")
